@@ -1,7 +1,8 @@
 // C11 white-box harness: the tree's own unicode.c is #included (chibicc.h comes from a `#pragma once` shim in the
 // build directory).  For every code point in [lo, hi) given on the command line (surrogates skipped) it writes one
 // 16-byte record to stdout:
-//   u32 cp | u8 enc_len | u8 enc[4] | u8 dec_len | u8 dec_err | u8 ident1 | u8 ident2 | u8 pad | u32 dec_cp  (packed)
+//   bytes 0-3 cp | 4 enc_len (0x80 set: wrote outside its bytes, 0xFF: called error) | 5-8 enc bytes | 9 bytes consumed by decode |
+//   10 decode called error_at | 11 bit0 is_ident1, bit1 is_ident2 | 12-15 decoded code point
 // encode_utf8 is called on a 0xAA-filled buffer (writes beyond enc_len are visible as a guard mismatch -> enc_len |= 0x80);
 // decode_utf8 is called on the *reference* UTF-8 encoding computed here from the definition (ISO 10646 table), followed by
 // a trailing 'Z', so that decode is checked independently of encode.
